@@ -11,6 +11,7 @@ import TjdModel.Autojac.Heap
 import TjdModel.Autojac.MtlSpec
 import TjdLemmas.C06Lemmas
 import TjdLemmas.ExtraLemmas
+import TjdLemmas.SeqLemmas
 import TjdProps.C01
 namespace Tjd.Props.C06
 open Tjd Tjd.Autojac Tjd.Props.C01
@@ -108,6 +109,19 @@ theorem backward_repeat (E : Engine α) (tensors inputs : List Key)
   exact iterate_accum (fun g => (backward E tensors inputs A chunk retain g).grads) inputs
     (fun k => sliceOf E.numel inputs k v)
     (fun g k => (backward_eq_spec E tensors inputs A chunk retain g hv hne v hA hlen).2 k) n h k
+
+/-- A HISTORY THROUGH A STATEFUL AGGREGATOR: call `j` of the history is made with whatever aggregator the (stateful) object
+    is at that moment, `As[j]`; if each maps the Jacobian to `vs[j]`, every requested `.grad` ends as the initial one with the
+    slices of `vs[0]`, `vs[1]`, … accumulated in that order, and nothing else changes (`backward_repeat` is the case of a constant
+    list) -/
+theorem backward_sequence (E : Engine α) (tensors inputs : List Key)
+    (As : List (Mat α → Except Err (Vec α))) (vs : List (Vec α)) (chunk : Option Int) (retain : Bool) (h : Grads α)
+    (hv : ValidCall E tensors inputs chunk) (hne : inputs ≠ []) (hl : As.length = vs.length)
+    (hA : ∀ j, j < As.length → (As.getD j (fun _ => .error Err.value)) (fullJac E tensors inputs) = .ok (vs.getD j []) ∧
+      (vs.getD j []).length = (inputs.map E.numel).sum) (k : Key) :
+    (As.foldl (fun g A => (backward E tensors inputs A chunk retain g).grads) h) k =
+      if k ∈ inputs then vs.foldl (fun g v => accum g (sliceOf E.numel inputs k v)) (h k) else h k := by
+  exact backward_sequence' E tensors inputs As vs chunk retain h hv hne hl hA k
 
 /-- accumulation adds to an existing `.grad` and creates an absent one (never replaces) -/
 theorem accum_spec (old : Option (Vec α)) (v : Vec α) :
